@@ -88,6 +88,7 @@ struct VSock {
   bool mcast_member = false;
   std::deque<Datagram> rxq;              // datagram sockets
   std::deque<uint8_t> rbytes;            // stream sockets: bytes available to read now
+  std::deque<uint8_t> early_tx;          // stream: bytes written before the listener accepted the connection
   bool eof = false;                      // stream: peer closed
   VSock *pair = nullptr;                 // stream: other libcoap end (lib <-> lib)
   StreamPeer *speer = nullptr;           // stream: scripted other end
@@ -134,6 +135,9 @@ class World {
   // virtual horizon `until` / the step cap is reached.  Returns true when quiescent.
   bool run(uint64_t until, unsigned max_steps = 20000);
   void service_contexts();
+  // a libcoap-internal blocking wait of the context that owns `epfd`: the rest of the world goes on meanwhile
+  void nested_wait(int epfd, uint32_t timeout_ms);
+  int nested = 0;
   void note(const std::string &s);
   void callback(const std::string &s, uint64_t val = 0);
 
